@@ -581,9 +581,10 @@ def get_sort(node):
         return __get_sort_cache[node]
     try:
         sort = _get_sort_aux(node)
-    except (IndexError, ValueError, AttributeError, AssertionError,
-            TypeError):
-        # malformed term (e.g., an operator without operands): unknown sort
+    except (IndexError, ValueError, AttributeError, AssertionError, TypeError,
+            RecursionError):
+        # malformed term (e.g., an operator without operands) or a term
+        # nested too deeply for the recursive inference: unknown sort
         sort = None
     __get_sort_cache[node.id] = sort
     __get_sort_cache[node] = sort
